@@ -4,5 +4,5 @@ export GOFLAGS=-mod=mod GOPROXY=off GOSUMDB=off GOTOOLCHAIN=local
 s=$1; WT=/tmp/ts_repo_$$
 git -C /repo worktree add -q --detach $WT HEAD || exit 2
 (cd $WT && git apply /verif/seeded/$s/patch.diff) || { echo apply-failed; git -C /repo worktree remove --force $WT; exit 2; }
-${GOSMT:-/verif/bin/gosmt} run ${HARNESSDIR:+-harnessdir $HARNESSDIR} -repo $WT -pkg $2 -harness $3 ${4:+-opt $4} 2>&1 | grep -E '"(Paths|Obligations|WallS|Err|label|msg)"' | sort | uniq -c | head -${LINES_MAX:-20}
+${GOSMT:-/verif/bin/gosmt} run ${HARNESSDIR:+-harnessdir $HARNESSDIR} -repo $WT -pkg $2 -harness $3 ${4:+-opt $4} 2>&1 | grep -E '"(Paths|Obligations|WallS|Err|label|msg)"|unsupported:' | sort | uniq -c | head -${LINES_MAX:-20}
 git -C /repo worktree remove --force $WT
